@@ -452,6 +452,7 @@ fn shapes_n<const N: usize>(rep: &mut EngineReport, nk: u8, nv: u8, threads: usi
     shape_clone::<u8, u8, N>(rep, nk, nv, threads);
     shape_clone::<String, String, N>(rep, nk, nv, threads);
     shape_clone::<u8, mc::payload::Big, N>(rep, nk, nv, threads);
+    shape_clone::<u8, mc::payload::Al, N>(rep, nk, nv, threads);
 }
 
 fn args_cap() -> usize {
